@@ -236,7 +236,7 @@ theorem C04_logon_gap (s s' : Sess) (m : InMsg) (n t : Int) (hk : kindOf m = "A"
     no reset and carries a number above the expected one (the expected number is still the one before the Logon) -/
 theorem C04_logon_gap_detected (s : Sess) (m : InMsg) (n : Int) (hst : s.st = .logon) (hk : kindOf m = "A")
     (hfixt : (s.cfg.bs == 5 && !(m.f.has 1137)) = false)
-    (hv : validate m = none) (hcb : callbackVerdict m = none)
+    (hv : validate s.cfg m = none) (hcb : callbackVerdict m = none)
     (hr1 : (if s.cfg.initiator then false else s.cfg.resetOnLogon) = false) (hr2 : logonResetFlag m = false)
     (hb : checkBeginString s m = none) (hc : checkCompID s m = none) (ht : checkSendingTime s m = none)
     (hn : getInt m 34 = .val n) (hgt : n > s.store.target) :
@@ -307,7 +307,7 @@ theorem C04_logon_gap_detected (s : Sess) (m : InMsg) (n : Int) (hst : s.st = .l
           (demoIn { chunk := 1 } "4" 9 [(123, "Y"), (36, "12")])).1.log
         == [.wire { kind := "2", seq := 2, f := [(7, "5"), (16, "5")] }, .saved 2 "2" true]
 #guard (fixMsgInCore { cfg := { chunk := 2 }, st := .resend [] 3 10, store := { sender := 2, target := 2 }, out := true, inboxOpen := true, hb := 30 }
-          (demoIn { chunk := 2 } "4" 2 [(123, "Y"), (36, "15"), (43, "Y")])).1.log
+          (demoIn { chunk := 2 } "4" 2 [(43, "Y"), (123, "Y"), (36, "15")])).1.log
         == [.wire { kind := "2", seq := 2, f := [(7, "15"), (16, "0")] }, .saved 2 "2" true, .setT 15, .fromAdmin "4" "2"]
 
 /-!
